@@ -210,7 +210,19 @@ func sharedRoot(fn *ssa.Function, kind string, root ssa.Value) (bool, string) {
 // externalMutators: methods of external types that mutate their receiver.
 func externalMutator(callee *ssa.Function) bool {
 	s := callee.String()
-	return strings.HasPrefix(s, "(*math/rand.Rand).") || strings.HasPrefix(s, "(*sync.Map).Store") || strings.HasPrefix(s, "(*bytes.Buffer).Write")
+	if strings.HasPrefix(s, "(*math/rand.Rand).") || strings.HasPrefix(s, "(*sync.Map).Store") || strings.HasPrefix(s, "(*bytes.Buffer).Write") {
+		return true
+	}
+	// library functions that rearrange the slice they are given in place
+	switch s {
+	case "sort.Strings", "sort.Ints", "sort.Float64s", "sort.Slice", "sort.SliceStable", "sort.Sort", "sort.Stable",
+		"math/rand.Shuffle":
+		return true
+	}
+	if strings.HasPrefix(s, "slices.Sort") || strings.HasPrefix(s, "slices.Reverse") {
+		return true // generic instantiations carry their type arguments in the name
+	}
+	return false
 }
 
 func lockedBefore(ins ssa.Instruction) bool {
